@@ -114,8 +114,9 @@ func (s *verifSystem) havocAll() {
 	s.havocMemories()
 	vHavoc("oam", s.o)
 	vAssume(s.o.VerifDmaInv())
-	// at a machine-cycle boundary: no latched corruption flags, and the window is open only in mode 2 with the LCD on (C17)
-	vAssume(!s.o.VerifFlags())
+	// latched corruption flags only inside the window (they may be set mid-cycle: PUSH decrements SP, then writes); the window
+	// is open only in mode 2 with the LCD on (C17)
+	vAssume(s.o.VerifFlagInv())
 	vAssume(!s.o.VerifCorrupt() || (s.p.VerifEnabled() && s.p.VerifMode() == 2))
 	vAssume(!s.o.VerifCorrupt() || (s.o.VerifPPULast() >= 0xfe00 && s.o.VerifPPULast() <= 0xfe9f))
 	vHavoc("serial", s.s)
